@@ -33,6 +33,11 @@ HOOK_RETURNS = (
     HookReturnAccessDenied, HookReturnGattError, HookReturnNotFound
 )
 
+class HookFailure(Exception):
+    """A profile hook raised an exception that is not one of HOOK_RETURNS
+    (raised by GattServer.call_hook() in place of that exception).
+    """
+
 SUPPORTED_GROUP_TYPES = (
     UUID(0x2800), # Primary service
     UUID(0x2801), # Secondary service
@@ -1319,28 +1324,64 @@ class GattServer(GattLayer):
         else:
             return None
 
+    def call_hook(self, hook, *args, **kwargs):
+        """Call a profile hook whose outcome decides how a request is answered.
+
+        HookReturn* exceptions are the hook's way to choose the answer and are
+        passed on. Any other exception is a failure of the hook: it is logged
+        and replaced by HookFailure, that the request handlers answer with an
+        Error Response (Unlikely Error) so that the request does not remain
+        unanswered.
+        """
+        try:
+            return hook(*args, **kwargs)
+        except HOOK_RETURNS:
+            raise
+        except Exception as err:
+            logger.error(
+                "[gatt] profile hook %s failed: %s: %s",
+                getattr(hook, '__name__', hook), err.__class__.__name__, err
+            )
+            raise HookFailure() from err
+
+    def call_informative_hook(self, hook, *args, **kwargs):
+        """Call a profile hook that only informs the model of something already
+        done and answered (characteristic written, subscribed, unsubscribed).
+
+        Nothing can be answered any more at that point: a HookReturn* exception
+        raised by such a hook is ignored (it must not produce a second PDU for
+        the same request), any other exception is logged and ignored (it must
+        not escape the PDU handler).
+        """
+        try:
+            hook(*args, **kwargs)
+        except HOOK_RETURNS as hook_return:
+            logger.debug(
+                "[gatt] %s raised by profile hook %s ignored (request already processed)",
+                hook_return.__class__.__name__, getattr(hook, '__name__', hook)
+            )
+        except Exception as err:
+            logger.error(
+                "[gatt] profile hook %s failed: %s: %s",
+                getattr(hook, '__name__', hook), err.__class__.__name__, err
+            )
+
     def characteristic_written(self, service, characteristic, offset, value,
                                without_response):
         """Tell the model a characteristic value has been written by the client.
 
         The `written` hook is called once the value has been updated and the
         Write Response (if any) sent: the answer cannot be changed any more,
-        a HookReturn* exception raised by this hook is therefore ignored (it
-        must not produce a second PDU for the same request).
+        whatever this hook raises is therefore ignored.
         """
-        try:
-            self.server_model.on_characteristic_written(
-                service,
-                characteristic,
-                offset,
-                value,
-                without_response
-            )
-        except HOOK_RETURNS as hook_return:
-            logger.debug(
-                "[gatt] %s raised by a 'written' hook ignored (write already done)",
-                hook_return.__class__.__name__
-            )
+        self.call_informative_hook(
+            self.server_model.on_characteristic_written,
+            service,
+            characteristic,
+            offset,
+            value,
+            without_response
+        )
 
     @proclock
     def notify(self, characteristic):
@@ -1609,7 +1650,8 @@ class GattServer(GattLayer):
                 if charac.readable():
                     try:
                         service = self.server_model.find_service_by_characteristic_handle(charac.handle)
-                        self.server_model.on_characteristic_read(
+                        self.call_hook(
+                            self.server_model.on_characteristic_read,
                             service,
                             charac,
                             0,
@@ -1658,6 +1700,13 @@ class GattServer(GattLayer):
                             gatt_error.request if gatt_error.request is not None else BleAttOpcode.READ_REQUEST,
                             gatt_error.handle if gatt_error.handle is not None else request.handle,
                             gatt_error.error if gatt_error.error is not None else BleAttErrorCode.ATTRIBUTE_NOT_FOUND
+                        )
+                    except HookFailure:
+                        # The hook raised something else: answer anyway
+                        self.error(
+                            BleAttOpcode.READ_REQUEST,
+                            request.handle,
+                            BleAttErrorCode.UNLIKELY_ERROR
                         )
                 else:
                     # Characteristic is not readable
@@ -1737,7 +1786,8 @@ class GattServer(GattLayer):
                 if isinstance(attr, CharacteristicValue):
                     try:
                         # Call our characteristic read hook
-                        self.server_model.on_characteristic_read(
+                        self.call_hook(
+                            self.server_model.on_characteristic_read,
                             service,
                             charac,
                             request.offset,
@@ -1787,6 +1837,13 @@ class GattServer(GattLayer):
                             gatt_error.request if gatt_error.request is not None else BleAttOpcode.READ_REQUEST,
                             gatt_error.handle if gatt_error.handle is not None else request.handle,
                             gatt_error.error if gatt_error.error is not None else BleAttErrorCode.ATTRIBUTE_NOT_FOUND
+                        )
+                    except HookFailure:
+                        # The hook raised something else: answer anyway
+                        self.error(
+                            BleAttOpcode.READ_BLOB_REQUEST,
+                            request.handle,
+                            BleAttErrorCode.UNLIKELY_ERROR
                         )
                 else:
                     # Valid offset, return data[offset:offset + MTU - 1]
@@ -1863,7 +1920,8 @@ class GattServer(GattLayer):
 
                     try:
                         # Trigger our write hook
-                        self.server_model.on_characteristic_write(
+                        self.call_hook(
+                            self.server_model.on_characteristic_write,
                             service,
                             charac,
                             0,
@@ -1928,6 +1986,13 @@ class GattServer(GattLayer):
                             gatt_error.handle if gatt_error.handle is not None else request.handle,
                             gatt_error.error if gatt_error.error is not None else BleAttErrorCode.ATTRIBUTE_NOT_FOUND
                         )
+                    except HookFailure:
+                        # The hook raised something else: answer anyway
+                        self.error(
+                            BleAttOpcode.WRITE_REQUEST,
+                            request.handle,
+                            BleAttErrorCode.UNLIKELY_ERROR
+                        )
                 else:
                     self.error(
                         BleAttOpcode.WRITE_REQUEST,
@@ -1950,7 +2015,8 @@ class GattServer(GattLayer):
                         if charac not in self.__subscribed_characs:
                             self.__subscribed_characs.append(charac)
 
-                        self.server_model.on_characteristic_subscribed(
+                        self.call_informative_hook(
+                            self.server_model.on_characteristic_subscribed,
                             service,
                             charac,
                             notification=True
@@ -1964,7 +2030,8 @@ class GattServer(GattLayer):
                         if charac not in self.__subscribed_characs:
                             self.__subscribed_characs.append(charac)
 
-                        self.server_model.on_characteristic_subscribed(
+                        self.call_informative_hook(
+                            self.server_model.on_characteristic_subscribed,
                             service,
                             charac,
                             indication=True
@@ -1981,7 +2048,8 @@ class GattServer(GattLayer):
                             self.__subscribed_characs.remove(charac)
 
                         # Notify model
-                        self.server_model.on_characteristic_unsubscribed(
+                        self.call_informative_hook(
+                            self.server_model.on_characteristic_unsubscribed,
                             service,
                             charac
                         )
@@ -2059,7 +2127,8 @@ class GattServer(GattLayer):
 
                     try:
                         # Trigger our write hook
-                        self.server_model.on_characteristic_write(
+                        self.call_hook(
+                            self.server_model.on_characteristic_write,
                             service,
                             charac,
                             0,
@@ -2122,6 +2191,10 @@ class GattServer(GattLayer):
                             gatt_error.handle if gatt_error.handle is not None else request.handle,
                             gatt_error.error if gatt_error.error is not None else BleAttErrorCode.ATTRIBUTE_NOT_FOUND
                         )
+                    except HookFailure:
+                        # The hook raised something else: the value is not written and
+                        # a command is not answered
+                        pass
                 else:
                     self.error(
                         BleAttOpcode.WRITE_COMMAND,
@@ -2144,7 +2217,8 @@ class GattServer(GattLayer):
                         if charac not in self.__subscribed_characs:
                             self.__subscribed_characs.append(charac)
 
-                        self.server_model.on_characteristic_subscribed(
+                        self.call_informative_hook(
+                            self.server_model.on_characteristic_subscribed,
                             service,
                             charac,
                             notification=True
@@ -2158,7 +2232,8 @@ class GattServer(GattLayer):
                         if charac not in self.__subscribed_characs:
                             self.__subscribed_characs.append(charac)
 
-                        self.server_model.on_characteristic_subscribed(
+                        self.call_informative_hook(
+                            self.server_model.on_characteristic_subscribed,
                             service,
                             charac,
                             indication=True
@@ -2175,7 +2250,8 @@ class GattServer(GattLayer):
                             self.__subscribed_characs.remove(charac)
 
                         # Notify model
-                        self.server_model.on_characteristic_unsubscribed(
+                        self.call_informative_hook(
+                            self.server_model.on_characteristic_unsubscribed,
                             service,
                             charac
                         )
